@@ -25,7 +25,7 @@ ASSUMPTIONS = [
 BOUNDS = {"quick": "14 instances, lengths with p > 1e-4 (at most 14 per block), all rooted writings for molecules up to 16 atoms", "thorough": "40 instances, p > 1e-6"}
 CASE_TIMEOUT = {"quick": 1500, "thorough": 6000}
 
-UNIT = {"CC": ("[<]CC[>]", "CC"), "CO": ("[<]CO[>]", "CO"), "CS": ("[<]CS[>]", "CS"), "CCl": ("[<]C(Cl)C[>]", "C(Cl)C"), "CN": ("[<]C(N)C[>]", "C(N)C")}
+UNIT = {"CC": ("[<]CC[>]", "CC"), "CO": ("[<]CO[>]", "CO"), "CS": ("[<]CS[>]", "CS"), "CCl": ("[<]C(Cl)C[>]", "C(Cl)C"), "CN": ("[<]C(N)C[>]", "C(N)C"), "CF2": ("[<]C(F)(F)[>]", "C(F)(F)"), "O": ("[<]O[>]", "O")}
 
 
 def instances(tier):
@@ -50,6 +50,14 @@ def instances(tier):
     # consecutive blocks built from the SAME repeat unit: one molecule has several splits between the blocks
     out.append({"start": ("prefix", "N"), "blocks": [("CC", "uniform", (20, 90)), ("CC", "uniform", (20, 90))], "suffix": "F"})
     out.append({"start": ("prefix", "CC"), "blocks": [("CN", "uniform", (60, 220)), ("CN", "flory_schulz", (0.02,))], "suffix": "[Si]"})
+    # both descriptors on ONE atom (single backbone atom)
+    out.append({"start": ("prefix", "N"), "blocks": [("CF2", "uniform", (60, 260))], "suffix": "Cl"})
+    out.append({"start": ("prefix", "C"), "blocks": [("O", "poisson", (40.0,))], "suffix": "C"})
+    out.append({"start": ("prefix", "N"), "blocks": [("CC", "uniform", (20, 90)), ("O", "uniform", (10, 60))], "suffix": "C"})
+    # two blocks of the SAME family with different parameters (and the same unit mass: equal cumulative masses)
+    out.append({"start": ("prefix", "CC"), "blocks": [("CC", "log_normal", (80.0, 1.2)), ("CC", "log_normal", (50.0, 1.4))], "suffix": "Cl"})
+    out.append({"start": ("prefix", "CC"), "blocks": [("CC", "gauss", (60.0, 15.0)), ("CC", "gauss", (90.0, 25.0))], "suffix": "Cl"})
+    out.append({"start": ("prefix", "CC"), "blocks": [("CO", "flory_schulz", (0.05,)), ("CO", "flory_schulz", (0.02,))], "suffix": "Cl"})
     # integer-valued laws with unit masses whose cumulative values have fractional parts below and above one half
     out.append({"start": ("prefix", "N"), "blocks": [("CCl", "flory_schulz", (0.01,))], "suffix": "F"})
     out.append({"start": ("prefix", "N"), "blocks": [("CCl", "poisson", (200.0,))], "suffix": "F"})
@@ -156,12 +164,16 @@ def eval_case(kind, data):
         viol(res, "C19|instance-not-generable", f"{text}", {"text": text})
         return res
     masses = [token_ref(UNIT[u][0]).mass for (u, f, p) in inst["blocks"]]
-    per_block = []
-    missing = 0.0
-    for (u, fam, par), m in zip(inst["blocks"], masses):
-        pb, rest = block_probs(fam, par, m, cut)
-        per_block.append(pb)
     same_units = len({u for (u, f_, p_) in inst["blocks"]}) < len(inst["blocks"])
+    per_block = []
+    per_block_alt = []  # the same law with the first unit's interval taken from mass 0 (diagnosis of the known finding)
+    ref_cut = 1e-10 if same_units else cut  # a molecule of same-unit blocks sums over ALL its splits: keep the small ones
+    for (u, fam, par), m in zip(inst["blocks"], masses):
+        pb, rest = block_probs(fam, par, m, ref_cut)
+        per_block.append(pb)
+        r_ = Ref(fam, tuple(par))
+        below = r_.cdf(0.0) if not r_.discrete else 0.0
+        per_block_alt.append({n: (p - below if n == 1 else p) for n, p in pb.items()})
     from .. import refsem as R
 
     kind_, val = inst["start"]
@@ -169,12 +181,15 @@ def eval_case(kind, data):
     nspec = R.normalize(spec_of(inst))
     # reference distribution over molecules: product of block-size probabilities x the generation model's start / capping picks
     ref = {}
+    ref_alt = {}
     info = {}
     for lengths in itertools.product(*[sorted(pb) for pb in per_block]):
         w = 1.0
-        for pb, n in zip(per_block, lengths):
+        wa = 1.0
+        for pb, pa, n in zip(per_block, per_block_alt, lengths):
             w *= pb[n]
-        if w < cut * 0.1 and len(lengths) > 1:
+            wa *= max(pa[n], 0.0)
+        if w < (1e-10 if same_units else cut * 0.1) and len(lengths) > 1:
             continue
         targets = [(n - 0.5) * m for n, m in zip(lengths, masses)]
         gm = R.GenModel(nspec, targets)
@@ -183,7 +198,10 @@ def eval_case(kind, data):
         for c, (p, st_) in out.items():
             smi = R.plain_smiles_of_labelled(c)
             ref[smi] = ref.get(smi, 0.0) + w * p
-            info.setdefault(smi, lengths)
+            ref_alt[smi] = ref_alt.get(smi, 0.0) + wa * p
+            if smi not in info or w * p > info[smi][1]:
+                info[smi] = (lengths, w * p)
+    info = {k: v[0] for k, v in info.items()}
     total_reported = 0.0
     total_ref = 0.0
     nq = 0
@@ -220,7 +238,10 @@ def eval_case(kind, data):
         if not vals:
             continue
         if max(vals) - min(vals) > 1e-9 * max(1.0, max(vals)):
-            cls = "some-writings-give-zero" if min(vals) == 0.0 and len({round(v, 12) for v in vals if v > 0}) == 1 else "other"
+            pos = sorted({round(v, 12) for v in vals if v > 0})
+            cls = "some-writings-give-zero" if min(vals) == 0.0 and len(pos) == 1 else "other"
+            if pos and all(abs(v / pos[0] - round(v / pos[0])) < 1e-9 for v in pos) and inst.get("suffix") and kind_ == "prefix" and Chem.CanonSmiles(inst["suffix"]) == Chem.CanonSmiles(val):
+                cls = "palindromic-molecule-counted-per-matching-end"
             viol(res, f"C19|depends-on-atom-order|{cls}", f"{text}: {smi}: its {len(writings)} rooted writings are reported between {min(vals)} and {max(vals)}", {"text": text, "smiles": smi})
             flagged += 1
         rep = max(vals)  # the value of the writings the search handles; order dependence is judged above
@@ -231,14 +252,12 @@ def eval_case(kind, data):
             cls = f"{shape}|{fams}|{'first-block-one-unit' if lengths[0] == 1 else 'longer'}"
             if kind_ == "end":
                 cls = "end-group-start"
-            elif lengths[0] == 1:
-                # does the report miss exactly the mass of draws below zero (first interval taken from 0)?
-                f0, fam0, par0 = inst["blocks"][0]
-                r0 = Ref(fam0, tuple(par0))
-                below = r0.cdf(0.0) if not r0.discrete else 0.0
-                p1 = per_block[0][1]
-                if p1 > 0 and abs(rep - pref * (p1 - below) / p1) < 1e-7 + 1e-6 * pref:
-                    cls = "first-unit-interval-starts-at-zero"
+            elif kind_ == "prefix" and inst.get("suffix") and Chem.CanonSmiles(inst["suffix"]) == Chem.CanonSmiles(val) and abs(rep - 2 * pref) < 1e-7 + 1e-6 * pref:
+                # prefix and suffix are the same fragment: the search starts from both ends and adds both matches
+                cls = "palindromic-molecule-counted-per-matching-end"
+            elif abs(rep - ref_alt.get(smi, -1.0)) < 1e-7 + 1e-6 * pref:
+                # the report misses exactly the mass of draws below zero (every block's first interval is taken from 0)
+                cls = "first-unit-interval-starts-at-zero"
             viol(
                 res,
                 f"C19|wrong-probability|{cls}",
